@@ -190,6 +190,7 @@ def run(ctx):
     s_scale(st)
     s_descriptions(st)
     s_flux_values(st)
+    s_range(st)
     s_admt(st)
     s_refine(st)
 
@@ -1243,6 +1244,108 @@ def s_scale(st):
         check_scale_case(st, nx, ny, dx, dy, x0, y0, aniso, shape, 'S-scale', scales)
 
 
+# ------------------------------------------------------------- S: flux maps with a wide dynamic range of |grad psi|
+# The coefficients at a voxel depend only on the direction of grad psi and the curvature of psi *at that voxel*; what
+# |grad psi| is elsewhere on the grid is irrelevant.  S-admt / S-scale skip grids whose smallest discrete |grad psi|^2 is
+# far below the typical one (conditioning of a *global* tolerance), so a legal map whose gradient is small but non-zero in
+# some voxels relative to others (magnetic axis close to -- not on -- a voxel centre, exponential or power-law profiles)
+# was never judged.  Here every row is judged on its own: the reference is formed from the same discrete derivatives of
+# psi the implementation forms (Dx @ psi, ... -- bit-identical inputs), so the two differ by the rounding of a different
+# order of arithmetic only, per voxel, whatever the gradient is elsewhere.
+RANGE_FAMILIES = ('near-axis', 'exponential', 'power-law')
+
+
+def range_psi(family, par, x, y, dx, dy):
+    u, w = (x - x.min()) / dx, (y.max() - y) / dy            # cell units, u = ix, w = iy
+    if family == 'near-axis':
+        # nested elliptical surfaces; axis displaced by par[2] (<< 1) cells from the centre of voxel (par[0], par[1])
+        return (u - par[0] - par[2]) ** 2 + par[3] * (w - par[1] - par[2] * par[4]) ** 2
+    if family == 'exponential':
+        # exp(k u)(1 + 0.1 w'): |grad psi| grows by exp(k (nx - 1)) across the grid
+        return np.exp(par[0] * u) * (1.0 + par[1] * w)
+    # power law around a point par[1] cells left of the grid: |grad psi| ~ r^(p-1)
+    return (u + par[1]) ** par[0] * (1.0 + par[2] * w)
+
+
+def check_range_case(st, nx, ny, dx, dy, x0, y0, aniso, family, par, stream):
+    ctx = st.ctx
+    cells = full_cells(nx, ny)
+    v, m12, m21, (status, ops) = gen(st, cells, dx, dy, x0, y0)
+    if status != 'ok':
+        return
+    c = v.mean(axis=1)
+    x, y = c[:, 0], c[:, 1]
+    psi = range_psi(family, par, x, y, dx, dy)
+    rep = dict(stream=stream, range_study=True, nx=nx, ny=ny, dx=dx, dy=dy, x0=x0, y0=y0, anisotropy=aniso, family=family,
+               par=[float(t) for t in par])
+    status, L = call(st.A.calculate_admt, x, ops, psi, dx, dy, aniso)
+    if status != 'ok':
+        ctx.fail('C20:calculate_admt:raises:' + status, 'calculate_admt raised on a %s flux map: %s' % (family, L), rep)
+        return
+    ref, N = reference_admt(ops, psi, x, dx, dy, aniso)
+    if not (N.min() > 0) or not np.all(np.isfinite(ref)):
+        ctx.count('S-range:skipped-zero-gradient')
+        return
+    span = float(N.max() / N.min())
+    ctx.case(key=('S-range', stream, family, nx, ny, f2b(aniso), f2b(float(par[0]))))
+    ctx.count('S-range:' + family)
+    ctx.count('S-range:decades-of-|grad psi|:%d' % int(0.5 * math.log10(span)))
+    rep['grad_psi_sq_max_over_min'] = span
+    if not np.all(np.isfinite(L)):
+        ctx.fail('C20:calculate_admt:not-finite:wide-gradient-range',
+                 'non-finite entries although |grad psi|^2 >= %g in every voxel (max %g)' % (N.min(), N.max()), rep)
+        return
+    # per-row tolerance: rounding of the coefficient arithmetic, amplified by the cancellation in the first-derivative
+    # coefficients (terms of size |psi''| / |grad psi| each)
+    curv = np.abs(ops['Dxx'] @ psi) + np.abs(ops['Dxy'] @ psi) + np.abs(ops['Dyy'] @ psi)
+    tol = 1e-9 + 1e-13 * curv / np.sqrt(N) * max(dx, dy)
+    tol = np.minimum(tol, 1e-4)
+    rowscale = np.abs(ref).max(axis=1)
+    err = np.abs(L - ref).max(axis=1) / rowscale
+    bad = np.nonzero(err > tol)[0]
+    if len(bad):
+        i = int(bad[np.argmax(err[bad])])
+        ctx.fail('C20:calculate_admt:coefficients-differ-from-jet:wide-gradient-range',
+                 'calculate_admt(anisotropy=%g) on a %s flux map (|grad psi|^2 spans %.3g over the grid, non-zero everywhere): row %d '
+                 '(voxel %s, |grad psi|^2 = %.3g = %.3g of the grid maximum) differs from the discretised div(D grad f) formed from the '
+                 'same local derivatives of psi by %.3g (relative); %d of %d rows affected'
+                 % (aniso, family, span, i, list(cells[i]), N[i], N[i] / N.max(), err[i], len(bad), len(err)),
+                 dict(rep, row=i, cell=list(cells[i]), rel_error=float(err[i]), rows_affected=[int(b) for b in bad[:20]]))
+    if aniso == 1.0:
+        lap = (ops['Dxx'] + ops['Dyy'] + np.diag(1 / x) @ ops['Dx']) * math.sqrt(dx * dy)
+        e2 = np.abs(L - lap).max(axis=1) / np.abs(lap).max(axis=1)
+        bad2 = np.nonzero(e2 > tol)[0]
+        if len(bad2):
+            i = int(bad2[np.argmax(e2[bad2])])
+            ctx.fail('C20:calculate_admt:isotropic-not-laplacian:wide-gradient-range',
+                     'anisotropy 1, %s flux map: row %d (|grad psi|^2 = %.3g of the grid maximum) differs from (Dxx + Dyy + Dx/R) sqrt(dx dy) '
+                     'by %.3g (relative)' % (family, i, N[i] / N.max(), e2[i]), dict(rep, row=i, rel_error=float(e2[i])))
+
+
+def s_range(st):
+    ctx, rng = st.ctx, st.ctx.rng
+    for it in range(ctx.n(12, 90)):
+        family = RANGE_FAMILIES[it % 3]
+        nx, ny = rng.randint(3 if family == 'near-axis' else 4, 7), rng.randint(3, 7)
+        dx, dy = rnd_step(rng), rnd_step(rng)
+        x0, y0 = rng.uniform(0.5, 5.0) + dx, rnd_origin(rng, dy)
+        aniso = 1.0 if (it // 3) % 2 == 0 else rng.choice([2.0, 10.0, 100.0, rng.uniform(1, 1000)])
+        target = 10.0 ** rng.uniform(4.0, 5.5)          # wanted ratio of the largest to the smallest |grad psi|
+        if family == 'near-axis':
+            # the axis voxel is an interior one (central differences: the discrete gradient there is 2 * displacement)
+            par = [rng.randint(1, nx - 2), rng.randint(1, ny - 2), rng.choice([1, -1]) * 2.0 * nx / target,
+                   rng.uniform(0.5, 2.0), rng.uniform(0.5, 1.5)]
+        elif family == 'exponential':
+            # one-sided differences at the two edges: the ratio of the edge gradients is about exp(k (nx - 2))
+            par = [math.log(target) / (nx - 2), rng.uniform(0.02, 0.1)]
+        else:
+            r0, pw = rng.choice([0.25, 0.5, 1.0]), 3.0
+            while pw * (nx - 1 + r0) ** (pw - 1) / (1 + r0) ** pw < target:
+                pw += 1.0
+            par = [pw, r0, rng.uniform(0.02, 0.1)]
+        check_range_case(st, nx, ny, dx, dy, x0, y0, aniso, family, par, 'S-range')
+
+
 # ------------------------------------------------------------------------------------------------- replay
 def replay_case(st, r):
     r = r.get('replay', r)
@@ -1251,6 +1354,8 @@ def replay_case(st, r):
                        representation=r.get('representation'), description=r.get('description'))
     elif r.get('flux_study'):
         check_flux_case(st, r['nx'], r['ny'], r['dx'], r['dy'], r['x0'], r['y0'], r['anisotropy'], r['variant'], r.get('offset', 0.0), 'replay')
+    elif r.get('range_study'):
+        check_range_case(st, r['nx'], r['ny'], r['dx'], r['dy'], r['x0'], r['y0'], r['anisotropy'], r['family'], r['par'], 'replay')
     elif r.get('scale_study'):
         check_scale_case(st, r['nx'], r['ny'], r['dx'], r['dy'], r['x0'], r['y0'], r['anisotropy'], r['shape'], 'replay',
                          [r['scale']] if 'scale' in r else None)
